@@ -109,6 +109,11 @@ let gen_divisor o = match o.v with
   | VG g -> List.exists (function Grid.GPoint (_, d) | Grid.GParam (_, d) -> d <> Grid.XH | Grid.GLine _ -> false) g.ggens
   | VP _ -> false
 
+(* the congruence systems the library printed for two grids are the same lists (up to order) *)
+let same_rows a b = match a.v, b.v with
+  | VG x, VG y -> List.sort compare x.gcgs = List.sort compare y.gcgs
+  | _ -> true
+
 type verdict = Ok | Fail of string | Undecided
 let want expected = function Some b -> if b = expected then Ok else Fail (Printf.sprintf "verified oracle says %b" b) | None -> Undecided
 
@@ -163,7 +168,7 @@ let cert_cond (ci : certinfo) = match ci.lib, ci.recount with
   | _ -> "state-" ^ state_class ci.cflags
 
 (* ---- powersets ---- *)
-type pset = { pd : string; pdim : int; ds : (obj * certinfo option) list; hull : obj; hcert : certinfo option }
+type pset = { pd : string; pdim : int; ds : (obj * certinfo option) list; hull : obj; hcert : certinfo option; pargs : int list }
 
 let stats_steps = ref 0 and stats_checks = ref 0 and stats_undecided = ref 0 and stats_cases = ref 0
 let cov : (string, int) Hashtbl.t = Hashtbl.create 64
@@ -206,7 +211,7 @@ let () =
     expect c tag; let id = nexti c in let pd = next c in let pdim = nexti c in let k = nexti c in
     let ds = List.init k (fun _ -> let _, o = parse_st "dst" (rd ()) in let ci = parse_cert "dcert" pdim (rd ()) in (o, ci)) in
     let _, hull = parse_st "hst" (rd ()) in let hcert = parse_cert "hcert" pdim (rd ()) in
-    id, { pd; pdim; ds; hull; hcert } in
+    id, { pd; pdim; ds; hull; hcert; pargs = [] } in
   (* every disjunct of a is contained in some disjunct of b *)
   let entails (a : pset) (b : pset) : bool option =
     List.fold_left (fun acc (x, _) ->
@@ -340,7 +345,10 @@ let () =
            let lines = (match ao.args with x :: _ -> (try has_lines (get x) with _ -> false) | [] -> false) in
            let gd = (match ao.args with x :: _ -> (try gen_divisor (get x) with _ -> false) | [] -> false) || (match bo.args with x :: _ -> (try gen_divisor (get x) with _ -> false) | [] -> false) in
            let islim = (let n = String.length ao.w in n > 8 && String.sub ao.w (n - 8) 8 = "/limited") in
-           report (ao.w ^ "/value-dependence:" ^ ao.d ^ (if lines then "+lines" else "") ^ (if gd && islim then "+gen-divisor" else "")) (match equiv ao bo with
+           let rows = (match ao.args, bo.args with
+             | [x1; y1], [x2; y2] -> (try not (same_rows (get x1) (get x2)) || not (same_rows (get y1) (get y2)) with _ -> false)
+             | _ -> false) in
+           report (ao.w ^ "/value-dependence:" ^ ao.d ^ (if lines then "+lines" else "") ^ (if gd && islim then "+gen-divisor" else "") ^ (if rows && not (gd && islim) then "+rows-differ" else "")) (match equiv ao bo with
              | Some true -> Ok
              | Some false -> Fail "equal arguments (verified) in different lazy states gave different results (verified)"
              | None -> Undecided)
@@ -388,6 +396,7 @@ let () =
             | `Ok ->
               let id', r = read_ps "pst" in let _, ya = read_ps "psty" in
               assert (id' = int_of_string id);
+              let r = { r with pargs = [int_of_string x; int_of_string y] } in
               Hashtbl.replace pss id' r;
               let xo = psget (int_of_string x) and yo = psget (int_of_string y) in
               let k = "ps" ^ xo.pd ^ "." ^ cn ^ "." ^ w in
@@ -430,7 +439,10 @@ let () =
                              Widen.ms_stabilizing Widen.bhrz03_compare (ms r.ds) (ms yo.ds) || (List.length r.ds = 1 && List.length yo.ds > 1)
                            else false end
                        | _ -> false) in
-                    report (k ^ "/cert-decrease" ^ (if lines then ":lines" else ""))
+                    (* the shape of the result of the `fourth technique': x itself plus one new disjunct *)
+                    let xplus = List.length r.ds = List.length xo.ds + 1
+                                && List.for_all (fun (o, _) -> List.exists (fun (o', _) -> equiv o o' = Some true) r.ds) xo.ds in
+                    report (k ^ "/cert-decrease" ^ (if xplus then ":x-plus-one-disjunct" else if lines then ":lines" else ""))
                       (if dec then Ok else Fail (Printf.sprintf "the powerset changed in value but its certificate (hull %s -> %s, disjunct certificates recounted from fresh copies) did not decrease" (show_cert hy.recount) (show_cert hr.recount)))
                   | Some false, _, _ -> bump ("psstep:" ^ k ^ ":empty")
                   | None, _, _ -> report (k ^ "/cert-decrease") Undecided)
@@ -441,7 +453,11 @@ let () =
            let ao = psget (int_of_string a) and bo = psget (int_of_string b) in
            bump ("pssame:" ^ kname);
            let lines = has_lines ao.hull || has_lines bo.hull in
-           report (kname ^ "/value-dependence:" ^ ao.pd ^ (if lines then "+lines" else "")) (match psequiv ao bo with
+           let rows_ps (p : pset) (q : pset) = List.exists (fun (o, _) -> not (List.exists (fun (o', _) -> same_rows o o') q.ds)) p.ds in
+           let rows = (match ao.pargs, bo.pargs with
+             | [x1; y1], [x2; y2] -> (try rows_ps (psget x1) (psget x2) || rows_ps (psget y1) (psget y2) with _ -> false)
+             | _ -> false) in
+           report (kname ^ "/value-dependence:" ^ ao.pd ^ (if lines then "+lines" else "") ^ (if rows then "+rows-differ" else "")) (match psequiv ao bo with
              | Some true -> Ok
              | Some false -> Fail "equal powersets (verified, disjunct by disjunct) whose disjuncts are in different lazy states gave different results (verified)"
              | None -> Undecided)
